@@ -200,6 +200,17 @@ def _returned_dict(f):
 
 
 def _local_value(f, name):
+    """The expression a local is computed by.  A local that is additionally
+    swapped with a sibling (`a, b = b, a` under a test) keeps the computing
+    definition: re-ordering corners does not change how a part is derived."""
+    from .common import _defs_of
+    defs = _defs_of(f, name)
+    real = [d for d in defs if not isinstance(d, ast.Name)]
+    # `c1, c2, n1, n2 = c2, c1, n2, n1`: _defs_of hands back the whole tuple
+    real = [d for d in real if not (isinstance(d, ast.Tuple) and all(
+        isinstance(e, ast.Name) for e in d.elts))]
+    if len(real) == 1 and len(defs) > 1:
+        return real[0]
     for n in own_nodes(f):
         if isinstance(n, ast.Assign):
             for t in n.targets:
@@ -255,7 +266,8 @@ def rule_fast(ctx):
             n1 = d.get('n1')
             if isinstance(n1, ast.Name):
                 n1 = _local_value(f, n1.id)
-            if n1 is None or '_col2index(c1)' != norm_src(n1):
+            if n1 is None or norm_src(n1) not in ('_col2index(c1)',
+                                                  '_col2index(c2)'):
                 problems.append('n1 is not _col2index(c1)')
         if 'n1' in params:
             c1 = d.get('c1')
@@ -263,8 +275,11 @@ def rule_fast(ctx):
                 c1 = _local_value(f, c1.id)
             if c1 is None or '_index2col(n1)' != norm_src(c1):
                 problems.append('c1 is not _index2col(n1)')
-        if 'c2' in params and norm_src(d.get('n2') or ast.Constant(0)) != \
-                '_col2index(c2)':
+        n2v = d.get('n2')
+        if isinstance(n2v, ast.Name):
+            n2v = _local_value(f, n2v.id)
+        if 'c2' in params and norm_src(n2v or ast.Constant(0)) not in (
+                '_col2index(c2)', '_col2index(c1)'):
             problems.append('n2 is not _col2index(c2)')
         if 'n2' in params:
             c2 = d.get('c2')
@@ -292,6 +307,39 @@ def rule_fast(ctx):
             rr.ok('%s: ref upper-cased, name=_build_id(ref, sheet_id), '
                   'column<->index helpers, keys %s' % (nm, sorted(d)),
                   '%s:%d' % (OPERAND, f.lineno))
+    # parameters fed from regex groups are text: an ordering test on them needs
+    # a numeric conversion first
+    groups = set()
+    for r_ in _regexes(ctx).values():
+        groups |= set(r_.group_names())
+    for nm in names:
+        f = p.func(OPERAND, nm)
+        textual = set(f.params) & groups
+        for n in own_nodes(f):
+            if not (isinstance(n, ast.Compare) and any(isinstance(
+                    o, (ast.Lt, ast.Gt, ast.LtE, ast.GtE)) for o in n.ops)):
+                continue
+            bare = [x for x in [n.left] + list(n.comparators)
+                    if isinstance(x, ast.Name) and x.id in textual]
+            # a parameter re-bound to a converted value is no longer text
+            from .common import _defs_of
+            bare = [x for x in bare if not any(
+                not isinstance(d_, ast.Name) and not (
+                    isinstance(d_, ast.Tuple) and all(
+                        isinstance(e_, ast.Name) for e_ in d_.elts))
+                for d_ in _defs_of(f, x.id))]
+            if len(bare) >= 2 or (bare and not any(isinstance(
+                    x, ast.Constant) for x in [n.left] + list(n.comparators))):
+                rr.instances += 1
+                rr.fail(key_of(f, 'regex-fed parts ordered as text'),
+                        '%s orders `%s`: these parameters arrive as the text '
+                        'of regex groups when the reference comes from the '
+                        'tokenizer (\'9\' > \'10\'), so corners are swapped '
+                        'for column or row numbers of different length and '
+                        'the R1C1 spelling gets another identifier than the '
+                        'A1 spelling of the same rectangle' % (
+                            nm, norm_src(n)), file=OPERAND, function=nm,
+                        line=n.lineno)
     # general graph
     r2p = p.func(OPERAND, '_range2parts')
     rr.instances += 1
@@ -522,6 +570,72 @@ def rule_extlink(ctx):
         and t.slice.value == 'external_links' for t in n.targets)]
     enums = [n for n in own_nodes(f) if isinstance(n, ast.Call) and isinstance(
         n.func, ast.Name) and n.func.id == 'enumerate' and n.args]
+    # numbering by the size of the table being filled: `t[str(len(t) + 1)] = ..`
+    # counts the entries kept so far - the position only if nothing is skipped
+    for n in own_nodes(f):
+        if not (isinstance(n, ast.Assign) and len(n.targets) == 1 and isinstance(
+                n.targets[0], ast.Subscript) and isinstance(
+                n.targets[0].value, ast.Name)):
+            continue
+        tab = n.targets[0].value.id
+        lens = [c for c in ast.walk(n.targets[0].slice) if isinstance(
+            c, ast.Call) and isinstance(c.func, ast.Name) and c.func.id == 'len'
+            and c.args and isinstance(c.args[0], ast.Name)
+            and c.args[0].id == tab]
+        if not lens:
+            continue
+        # is this table the external_links table?
+        is_links = any(isinstance(x, ast.Name) and x.id == tab
+                       for st in stores for x in ast.walk(st)) or any(
+            isinstance(t, ast.Name) and t.id == tab
+            for st in stores for t in st.targets)
+        if not is_links:
+            continue
+        rr.instances += 1
+        # conditional store inside a loop = entries are skipped before counting
+        parents = {}
+        for x in ast.walk(f.node):
+            for c in ast.iter_child_nodes(x):
+                parents[id(c)] = x
+        cur, cond, loop = parents.get(id(n)), None, None
+        while cur is not None and cur is not f.node:
+            if isinstance(cur, ast.If) and loop is None:
+                cond = cond or cur
+            if isinstance(cur, (ast.For, ast.While)):
+                loop = cur
+                break
+            cur = parents.get(id(cur))
+        skipping = cond is not None or (loop is not None and any(
+            isinstance(x, ast.Continue) for x in ast.walk(loop)))
+        if loop is not None and skipping:
+            rr.fail(key_of(f, 'link index counted after filtering'),
+                    'add_book numbers the external links with `%s`, the number '
+                    'of links kept so far, inside a loop that skips some (`%s`): '
+                    'the index no longer is the position in the workbook\'s '
+                    'link list, so [n]Sheet!A1 resolves to a different '
+                    'workbook than Excel\'s n-th link whenever a skipped link '
+                    'precedes it' % (norm_src(n.targets[0].slice)[:40],
+                                     norm_src(cond.test)[:40] if cond is not
+                                     None else 'continue'),
+                    file=f.module.rel, function=f.qualname, line=n.lineno)
+        else:
+            rr.ok('links are numbered by the size of the table and none is '
+                  'skipped', '%s:%d' % (f.module.rel, n.lineno))
+        rr.instances += 1
+        sl = n.targets[0].slice
+        inner = sl.args[0] if isinstance(sl, ast.Call) and sl.args else sl
+        one_based = isinstance(inner, ast.BinOp) and isinstance(
+            inner.op, ast.Add) and any(isinstance(x, ast.Constant) and
+                                       x.value == 1
+                                       for x in (inner.left, inner.right))
+        if one_based:
+            rr.ok('link keys are str(count + 1), 1-based', f.module.rel)
+        else:
+            rr.fail(key_of(f, 'link index not 1-based'),
+                    'add_book keys the link table with `%s`: Excel\'s [n] is '
+                    '1-based' % norm_src(sl)[:40], file=f.module.rel,
+                    function=f.qualname, line=n.lineno)
+        return rr
     if not stores or not enums:
         raise AnalysisError('add_book: construction of the external_links '
                             'table not recognised')
